@@ -185,7 +185,7 @@ fn history(uni: &Uni, r: &mut Rng) -> Vec<Op> {
     let mut ops: Vec<Op> = Vec::new();
     // apply; keep the op when it succeeded (or, rarely, as an error path)
     let mut push = |st: &mut State, ops: &mut Vec<Op>, r: &mut Rng, op: Op| -> Res {
-        let mut probe = State { g: st.g.clone(), dump: st.dump.clone(), seen_pkgs: st.seen_pkgs.clone() };
+        let mut probe = State { g: st.g.clone(), dump: st.dump.clone(), seen_pkgs: st.seen_pkgs.clone(), validate: false };
         let res = probe.apply(uni, &op);
         if res.is_ok() || (!res.is_panic() && r.chance(1, 10)) {
             let res2 = st.apply(uni, &op);
